@@ -41,6 +41,7 @@ func unpack(c ugen.Case, a *ugen.Arena) (err error, panicked any) {
 	if perr != nil {
 		return perr, "harness-packer"
 	}
+	defer a.Enter()()
 	return p.Unpack(r, a.Spelled), nil
 }
 
